@@ -48,3 +48,105 @@ A_INFEASIBLE = [
     ('mpmath/functions/zetazeros.py', 'nzeros', 'k == -1 and a > 0',
      'same as above'),
 ]
+
+# ---------------------------------------------------------------------------
+# Engine D (C33 / C38 / C17)
+# ---------------------------------------------------------------------------
+# kind:
+#   tagged   entries are (tag, value) tuples; a hit must be gated on
+#            stored-tag >= requested precision (rule D-R1a)
+#   keyed    the working precision is part of the key (D-R1b)
+#   fixed    entries are computed at one constant precision and only used
+#            when the requested precision is not larger (D-R1c)
+#   exact    values are exact integers / rationals / code objects: stores may
+#            only happen where no precision is in scope (D-R1d)
+#   purekey  the stored value is a function of the key alone (D-R1e)
+#   special  has its own dedicated rule (named in 'rule')
+#   state    mutable object state that is not a memo table (reason required)
+CACHES = [
+    dict(kind='tagged', file='mpmath/libmp/libelefun.py', func='log_int_fixed',
+         container='log_int_cache', why='(value, precision) per integer'),
+    dict(kind='tagged', file='mpmath/libmp/gammazeta.py', func='mpf_zeta_int',
+         container='zeta_int_cache', why='(precision, value) per integer argument'),
+    dict(kind='tagged', file='mpmath/ctx_base.py', func='StandardBaseContext.memoize.f_cached',
+         container='f_cache', why='(precision, value) per call key; closure-local dict'),
+    dict(kind='tagged', file='mpmath/functions/bessel.py', func='c_memo.f_wrapped',
+         container='cache', why='ctx._misc_const_cache: (precision, value) per constant name'),
+    dict(kind='tagged', file='mpmath/functions/bessel.py', func='coulombc',
+         container='_cache', why='(precision, value) per (l, eta)'),
+    dict(kind='tagged', file='mpmath/functions/bessel.py', func='_coulomb_chi',
+         container='_cache', why='(precision, value) per (l, eta)'),
+    dict(kind='tagged', file='mpmath/functions/zeta.py', func='stieltjes',
+         container='stieltjes_cache', why='(precision, value) per n, stored on the context'),
+    dict(kind='keyed', file='mpmath/libmp/gammazeta.py', func='mpf_bernoulli',
+         container='bernoulli_cache', why='keyed by the (rounded-up) working precision'),
+    dict(kind='keyed', file='mpmath/libmp/libelefun.py', func='log_taylor_cached',
+         container='log_taylor_cache', why='keyed by (n, cached precision step)'),
+    dict(kind='keyed', file='mpmath/libmp/libelefun.py', func='atan_taylor_get_cached',
+         container='atan_taylor_cache', why='keyed by (n, precision step)'),
+    dict(kind='keyed', file='mpmath/libmp/gammazeta.py', func='gamma_taylor_coefficients',
+         container='gamma_taylor_cache', why='keyed by precision; higher-precision entries are shifted down'),
+    dict(kind='keyed', file='mpmath/calculus/quadrature.py', func='QuadratureRule.get_nodes',
+         container='self.standard_cache', why='keyed by (degree, precision)'),
+    dict(kind='keyed', file='mpmath/calculus/quadrature.py', func='QuadratureRule.get_nodes',
+         container='self.transformed_cache', why='keyed by (a, b, degree, precision)'),
+    dict(kind='fixed', file='mpmath/libmp/libelefun.py', func='cos_sin_basecase',
+         container='cos_sin_cache', const='COS_SIN_CACHE_PREC',
+         why='entries computed at COS_SIN_CACHE_PREC; bypassed above it'),
+    dict(kind='exact', file='mpmath/libmp/gammazeta.py', func='borwein_coefficients',
+         container='borwein_cache', why='exact integer coefficients'),
+    dict(kind='exact', file='mpmath/libmp/gammazeta.py', func='stirling_coefficient',
+         container='gamma_stirling_cache', why='exact rational numbers'),
+    dict(kind='exact', file='mpmath/libmp/gammazeta.py', func='primesieve',
+         container='sieve_cache,primes_cache,mult_cache', why='exact integer sieve'),
+    dict(kind='exact', file='mpmath/libmp/libintmath.py', func='ifib', container='_cache',
+         why='exact integers'),
+    dict(kind='exact', file='mpmath/libmp/libintmath.py', func='ifac', container='memo',
+         why='exact integers'),
+    dict(kind='exact', file='mpmath/libmp/libintmath.py', func='ifac2', container='memo',
+         why='exact integers (memo_pair[n&1])'),
+    dict(kind='exact', file='mpmath/libmp/libintmath.py', func='eulernum', container='_cache',
+         why='exact integers'),
+    dict(kind='exact', file='mpmath/rational.py', func='create_reduced', container='_cache',
+         why='exact reduced fractions'),
+    dict(kind='exact', file='mpmath/calculus/differentiation.py', func='dpoly', container='_cache',
+         why='exact integer polynomial coefficients'),
+    dict(kind='exact', file='mpmath/libmp/libmpf.py', func=None, container='int_cache',
+         why='exact small integers, built once at import; must never be written from a function'),
+    dict(kind='purekey', file='mpmath/ctx_mp.py', func='MPContext.hypsum',
+         container='ctx.hyp_summators', why='generated summation routine for a parameter-type signature'),
+    dict(kind='special', rule='D-R2', file='mpmath/libmp/libelefun.py', func='constant_memo.g',
+         container='f.memo_val', why='fixed-point constant with separate precision tag f.memo_prec'),
+    dict(kind='special', rule='D-LU', file='mpmath/matrices/linalg.py',
+         func='LinearAlgebraMethods.LU_decomp', container='A._LU',
+         why='LU factors cached on the matrix object'),
+    dict(kind='special', rule='D-RS', file='mpmath/functions/rszeta.py', func='coef',
+         container='ctx._rs_cache', why='Riemann-Siegel coefficients, tagged by (J, eps)'),
+    dict(kind='special', rule='D-IV', file='mpmath/functions/bessel.py', func='bessel_zero',
+         container='_interval_cache',
+         why='bracketing intervals only; the root is re-solved at the current precision on every call'),
+    dict(kind='state', file='mpmath/functions/zeta.py', func='_load_zeta_zeros',
+         container='_zeta_zeros', why='table of approximate starting points, replaced wholesale'),
+    dict(kind='state', file='mpmath/calculus/extrapolation.py', func='levin_class.run',
+         container='self.A', why='per-object extrapolation table, not a memo of results'),
+    dict(kind='state', file='mpmath/calculus/extrapolation.py', func='levin_class.run',
+         container='self.B', why='per-object extrapolation table'),
+    dict(kind='state', file='mpmath/calculus/quadrature.py', func='QuadratureRule.get_nodes',
+         container='self.interval_count', why='unused counter'),
+    dict(kind='state', file='mpmath/functions/functions.py', func='SpecialFunctions.__init__',
+         container='self._aliases', why='alias table filled at construction'),
+    dict(kind='state', file='mpmath/functions/hypergeometric.py', func='hypercomb',
+         container='params', why='argument list, only read (copied)'),
+    dict(kind='state', file='mpmath/matrices/matrices.py', func='_matrix', container='self.__data',
+         why='matrix payload; covered by rule D-R4'),
+    dict(kind='state', file='mpmath/ctx_mp_python.py', func='PythonMPContext', container='ctx._prec_rounding',
+         why='the precision cell itself (C11 A-R6)'),
+    dict(kind='state', file='mpmath/ctx_iv.py', func='MPIntervalContext', container='ctx._prec',
+         why='the precision cell itself (C11 A-R6)'),
+    dict(kind='exact', file='mpmath/ctx_fp.py', func='FPContext.bernoulli', container='cache',
+         why='fp context has fixed 53-bit precision; values are floats'),
+    dict(kind='state', file='mpmath/calculus/differentiation.py', func='iterable_to_function.f',
+         container='data', why='lazily materialised prefix of a user iterable; values are stored as given'),
+    dict(kind='state', file='mpmath/ctx_base.py', func='StandardBaseContext.maxcalls.f_maxcalls_wrapped',
+         container='counter', why='call counter of maxcalls'),
+]
